@@ -38,7 +38,7 @@ CLAIM = {
 PIECES = [("ab", "lit"), ("\\n", "lit"), ("$$", "dd"), ("${x}", "emb"), ("${ y+1 }", "emb"), ("$", "tail"),
           ("${", "adv"), ("}", "lit"), ("$z", "adv"), ("{", "lit"), ("${0x1F}", "emb"), ("${2.50}", "emb")]
 # number literals as the whole embedded expression, in every spelling (split K-diff, lengths <= 2 around them)
-NUM_LITS = ["7", "0x1F", "0X1f", "0o17", "017", "0b101", "1_000", "0x_ff", "2.50", "2.0", "1e3", "0.5", "1e21", "12.0e-1", "1_0.2_5", "0x1p-2", "100."]
+NUM_LITS = ["7", "0x1F", "0X1f", "0o17", "017", "0b101", "1_000", "0x_ff", "2.50", "2.0", "1e3", "0.5", "1e21", "12.0e-1", "1_0.2_5", "100."]
 RAW_EXTRA = [('"', "lit"), ("a\nb", "lit")]
 
 
@@ -103,7 +103,7 @@ def canon_impl_split(line):
 LITS_D = ["ab", "\\n", "x\\\\y", "\\\"", "\\x24", "{", "}", " ", "\\t-", "é", "%d", "{}"]
 LITS_R = ["ab", "\\n", "\"", "{", "}", " ", "x\\", "%s"]
 INT_LITS = ["7", "0x1F", "0X1f", "0o17", "017", "0b101", "1_000", "0x_ff"]
-FLOAT_LITS = ["2.50", "2.0", "1e3", "0.5", "1e21", "12.0e-1", "1_0.2_5", "0x1p-2", "100."]
+FLOAT_LITS = ["2.50", "2.0", "1e3", "0.5", "1e21", "12.0e-1", "1_0.2_5", "100."]
 EMBS = [("LI", "int"), ("LF", "float"), ("n", "int"), ("m", "int"), ("n+1", "int"), (" n ", "int"), ("s", "string"), ("s+s", "string"), ("fl", "float"),
         ("g", "float"), ("er", "error"), ("P", "int"), ("PS", "string"), ("P+m", "int")]
 
